@@ -60,7 +60,18 @@ func main() {
 	addTokens := make(chan struct{})
 	bi := -1
 	for _, beh := range all {
-		for _, split := range []bool{false, true} {
+		for _, variant := range []string{"plain", "split", "pre"} {
+			split := variant == "split"
+			// "pre": the leading additions already exist when the controller attaches (replayed by AddReference)
+			npre := 0
+			if variant == "pre" {
+				for npre < len(beh) && beh[npre].A == "added" {
+					npre++
+				}
+				if npre == 0 {
+					continue
+				}
+			}
 			bi++
 			ctrl, err := holdopen.NewController(nil, le)
 			if err != nil {
@@ -77,6 +88,12 @@ func main() {
 					inAdd.Add(-1)
 				}
 			}
+			vals := map[int]directive.AttachedValue{}
+			for _, s := range beh[:npre] {
+				v := directive.NewAttachedValue(uint32(s.V), link.MountedLink(&fakes.MountedLink{UUID: uint64(s.V), Local: vio.PeerID("holdopen/l"), Remote: peerA}))
+				vals[s.V] = v
+				inst.Vals = append(inst.Vals, v)
+			}
 			if _, err := ctrl.HandleDirective(context.Background(), inst); err != nil {
 				vio.Fatal("HandleDirective: %v", err)
 			}
@@ -85,7 +102,6 @@ func main() {
 				vio.Fatal("expected one reference handler, got %d", len(hs))
 			}
 			h := hs[0]
-			vals := map[int]directive.AttachedValue{}
 			out.Emit(map[string]any{"e": "reset", "b": bi, "split": split})
 			settle := func() {
 				// everything not parked at the gate must be finished (async Release goroutines, callbacks)
@@ -108,8 +124,20 @@ func main() {
 					h.HandleValueRemoved(inst, vals[s.V])
 				}
 			}
+			if npre > 0 {
+				if err := quiesce.Wait(watch, []string{"main.main.func"}, 10*time.Second, nil); err != nil {
+					vio.Fatal("%v", err)
+				}
+				if parked.Load() > 0 {
+					gateSeen = true
+				}
+				for _, s := range beh[:npre] {
+					out.Emit(map[string]any{"e": "added", "v": s.V})
+				}
+				checkpoint()
+			}
 			for si, s := range beh {
-				if si == skip {
+				if si == skip || si < npre {
 					continue
 				}
 				if split && s.A == "acq" && parked.Load() > 0 {
